@@ -60,7 +60,8 @@ EXC_PARENTS = {"CoordinateError": "Exception", "PayloadError": "Exception", "Ass
                "StopIteration": "Exception", "TypeError": "Exception", "ValueError": "Exception",
                "IndexError": "LookupError", "KeyError": "LookupError", "LookupError": "Exception",
                "ZeroDivisionError": "ArithmeticError", "ArithmeticError": "Exception",
-               "AttributeError": "Exception", "NotImplementedError": "Exception", "Exception": "BaseException"}
+               "AttributeError": "Exception", "NotImplementedError": "Exception", "Exception": "BaseException",
+               "UnboundLocalError": "NameError", "NameError": "Exception"}
 
 
 def exc_matches(name, handler):
@@ -233,7 +234,8 @@ class ExecBase:
             return k(st, st.store[n])
         v = self.global_name(n, st, ctx)
         if v is None:
-            raise Unsupported("unbound name %r at line %d" % (n, e.lineno))
+            # not bound on this path and not a known global: Python raises UnboundLocalError / NameError here
+            return self.raise_(st, ctx, "UnboundLocalError", e.lineno)
         return k(st, v)
 
     def global_name(self, n, st, ctx):
